@@ -147,6 +147,10 @@ class State:
         s.env, s.path, s.ghost, s.fields = dict(self.env), list(self.path), dict(self.ghost), dict(self.fields)
         s.pc_taint, s.trace = self.pc_taint, list(self.trace)
         s.qfacts = list(self.qfacts)
+        if 'elem_lemmas' in self.__dict__:
+            s.elem_lemmas = list(self.elem_lemmas)
+        if '_fi_done' in self.__dict__:
+            s._fi_done = set(self._fi_done)
         return s
 
     def assume(self, c):
@@ -320,8 +324,13 @@ class Engine:
         finally:
             self._spec_mode -= 1
             self._spec_polarity = old_pol
-        if mode == 'assume' and len(st2.qfacts) > len(st.qfacts):
+        if len(st2.qfacts) > len(st.qfacts):
+            # quantified facts registered while evaluating a spec are definitional (membership, first index, forall markers)
             st.qfacts = list(st2.qfacts)
+            if '_fi_done' in st2.__dict__:
+                st._fi_done = set(st2._fi_done)
+        if len(getattr(st2, 'elem_lemmas', [])) > len(getattr(st, 'elem_lemmas', [])):
+            st.elem_lemmas = list(st2.elem_lemmas)
         extra_facts = st2.path[len(st.path):]
         t = self.truth(st2, v)
         # facts introduced while evaluating the spec (ground axioms of opaque terms) are sound to assume
@@ -340,6 +349,8 @@ class Engine:
         for n in names:
             ty = params.get(n, 'obj:')
             st.env[n] = self.typed(ty, n) if not callable(ty) else ty(self, n)
+            if hasattr(st.env[n], 'n') and z3.is_expr(getattr(st.env[n], 'n', None)):
+                st.assume(st.env[n].n >= 0)
         for k, v in self.module_env.items():
             st.env.setdefault(k, v)
         if self.hooks and hasattr(self.hooks, 'init'):
@@ -614,6 +625,8 @@ class Engine:
                 if isinstance(old, (FuncV, Ref)):
                     continue
                 st.env[m] = self.fresh_like(old, '%s_%s' % (m, tag), taint=t_or(old.taint, taints.get(m, FALSE)))
+                if hasattr(st.env[m], '_at'):
+                    st.assume(st.env[m].n >= 0)
                 if ghosts and ghosts.get(m) is not None and not isinstance(st.env[m], (Num, BoolV)):
                     try:
                         st.env[m].ghost = ghosts[m]
@@ -953,6 +966,16 @@ class Engine:
             x = self.hooks.compare(self, st, op, l, r, node)
             if x is not NotImplemented and x is not None:
                 return x
+        if hasattr(self, 'arr_compare'):
+            x = self.arr_compare(st, op, l, r, node)
+            if x is not NotImplemented:
+                return x
+        if isinstance(op, (ast.Is, ast.IsNot)) and isinstance(r, Ref) and r.name == 'str' and getattr(l, 'cls', None) == 'type':
+            known = l.g('of')
+            if known is not None:
+                isstr = (isinstance(known, Const) and isinstance(known.v, str)) or getattr(known, 'cls', None) == 'str'
+                t = z3.BoolVal(bool(isstr))
+                return t if isinstance(op, ast.Is) else z3.Not(t)
         if isinstance(op, (ast.Is, ast.IsNot)):
             if isinstance(r, Const) and r.v is None:
                 if isinstance(l, Const):
@@ -982,6 +1005,9 @@ class Engine:
             if f:
                 return f()
         if isinstance(op, (ast.Eq, ast.NotEq)):
+            for x_, y_ in ((l, r), (r, l)):
+                if isinstance(y_, Const) and y_.v is None and (hasattr(x_, '_at') or isinstance(x_, (Tup, DictV)) or getattr(x_, 'is_dictsym', False)):
+                    return FALSE if isinstance(op, ast.Eq) else TRUE          # a sequence is not None
             if isinstance(l, Const) and isinstance(r, Const):
                 t = z3.BoolVal(l.v == r.v)
             elif isinstance(l, BoolV) and isinstance(r, BoolV):
@@ -1112,6 +1138,15 @@ class Engine:
                 return Bound(o, name, taint=o.taint)
             if ty and ty.startswith('obj'):
                 return Obj(self.uf('attr_' + name, V, V)(o.t), cls=ty[4:] or None, taint=o.taint)
+            if ty and (ty.startswith('seq:') or ty.startswith('arr:') or ty.startswith('dict:')):
+                cache = self.__dict__.setdefault('_attr_seq', {})
+                ck = (str(o.t), name)
+                if ck not in cache:
+                    base = '%s.%s' % (str(o.t).replace(' ', ''), name)
+                    cache[ck] = self.typed(ty, base[:60] if len(base) <= 60 else 'f%d.%s' % (len(cache), name), taint=o.taint)
+                if z3.is_expr(getattr(cache[ck], 'n', None)):
+                    st.assume(cache[ck].n >= 0)
+                return cache[ck]
             return Bound(o, name, taint=o.taint)       # decided at call / use time
         if isinstance(o, (Tup, DictV, Const, Num, BoolV, Bound, FuncV)):
             return Bound(o, name, taint=o.taint)
@@ -1303,6 +1338,7 @@ class Engine:
                 if kk not in cache:
                     self.counter += 1
                     cache[kk] = self.typed(rty, 'ret_%s!%d' % (key.strip('.').replace('.', '_'), self.counter), taint=tt)
+                st.assume(cache[kk].n >= 0)
                 return cache[kk]
             return Obj(term, cls=rty[4:] or None, taint=tt)
         # mutator declared in the contract: the receiver variable is rebound to a fresh object
@@ -1541,7 +1577,7 @@ class Engine:
             if name == 'isinstance' or name == 'callable' or name == 'hasattr' or name == 'np.isscalar':
                 return BoolV(self.uf('pred_' + name.replace('.', '_'), *([V] * len(args) + [B]))(*[self.to_V(a) for a in args]), taint=FALSE)
             if name == 'type':
-                return Obj(self.uf('type', V, V)(self.to_V(args[0])), cls='type')
+                return Obj(self.uf('type', V, V)(self.to_V(args[0])), cls='type', ghost={'of': args[0]})
             if name == 'str':
                 return Obj(self.fresh('str', V), cls='str', taint=tt)
         else:
